@@ -150,7 +150,7 @@ class IsoDepInitiator(object):
 
             for i in itertools.count(start=1):  # pragma: no branch
                 try:
-                    data = self.clf.exchange(data, timeout)
+                    data = self._exchange(data, timeout)
                     if len(data) == 0:
                         raise nfc.clf.TransmissionError
                     break
